@@ -162,8 +162,6 @@ def repeatStr (s : GoStr) : Nat → GoStr
   | 0 => []
   | n+1 => s ++ repeatStr s n
 
-def openingStatements : List String := ["if", "else if", "for", "switch"]
-def elseStatements : List String := ["else", "else if"]
 
 def nukeAfter : GoStr := bs "~☢<"
 def nukeBefore : GoStr := bs ">☢~"
@@ -172,6 +170,11 @@ def joinWith (sep : GoStr) : List GoStr → GoStr
   | [] => []
   | [a] => a
   | a :: rest => a ++ sep ++ joinWith sep rest
+
+/-- a `- statement` opens a block when it has nested nodes, or is a control-flow line written without its brace -/
+def silentHasBlock (o : Tok) (kids : List Node) : Bool :=
+  let code := trimSpace o.lit
+  !kids.isEmpty || ((Gen.openingStatements.any fun s => hasPrefix code s) && !hasSuffix code [123])
 
 def isSilent : Node → Option GoStr
   | .silent o _ _ => some o.lit
@@ -375,24 +378,26 @@ def emitNode (n : Node) (needsClose : Bool) (nextSib : Option Node) (g : G) (w :
     pure (g, { w with isUnescaped := false })
   | .silent o _ kids => do
     let code := trimSpaceStr o.lit
-    let isOpening := openingStatements.any fun s => hasPrefix code (bs s)
+    let isOpening := Gen.openingStatements.any fun s => hasPrefix code s
     let start := if needsClose && !hasPrefix code (bs "}") then bs "} " else []
-    let endS := if !kids.isEmpty && isOpening && !hasSuffix code (bs "{") then bs " {\n" else bs "\n"
+    let hasBlock := silentHasBlock o kids
+    let endS := if hasBlock && isOpening && !hasSuffix code (bs "{") then bs " {\n" else bs "\n"
     let (g, w, _) := twWriteIndent g w start
     let (g, w, r) := twWrite g w code
     let g := g.add o r
     let (g, w, _) := twWrite g w endS
-    if kids.isEmpty then pure (g, w) else
+    if !hasBlock then pure (g, w) else
     let iw := { w with indent := w.indent + 1 }
     let (g, iw) ← emitKids kids false g iw
     let (g, _) := twClose g iw
-    match nextSib.bind isSilent with
-    | some _ => pure (g, w)        -- next sibling is a silent script: it decides (needsClose handled by emitKids)
-    | none =>
-      if isOpening then
-        let (g, w, _) := twWriteIndent g w (bs "}\n")
-        pure (g, w)
-      else pure (g, w)
+    let nextCode := nextSib.bind isSilent
+    let continued := match nextCode with
+      | some c => Gen.elseStatements.any fun s => hasPrefix c s      -- the else branch closes this block itself
+      | none => false
+    if !continued && isOpening && !(nextCode.isSome && hasSuffix code (bs "{")) then
+      let (g, w, _) := twWriteIndent g w (bs "}\n")
+      pure (g, w)
+    else pure (g, w)
   | .script t => .ok (dynamicValue g w t)
   | .render o _ kids => do
     if kids.isEmpty then
@@ -445,7 +450,7 @@ def emitKids (kids : List Node) (needsClose : Bool) (g : G) (w : W) : Except Str
     -- does `k` set needsClose on its next sibling?
     let nc :=
       match k, rest.head?.bind isSilent with
-      | .silent _ _ ks, some code => !ks.isEmpty && elseStatements.any (fun s => hasPrefix code (bs s))
+      | .silent o _ ks, some code => silentHasBlock o ks && Gen.elseStatements.any (fun s => hasPrefix code s)
       | _, _ => false
     emitKids rest nc g w
 end
